@@ -55,6 +55,14 @@ fn main() {
     // the checks with catch_unwind; the hook stays quiet for those (see util::quiet_panics).
     util::install_panic_hook();
     proc::install_child_reaper();
+    // some histories hold thousands of sockets at once: use the whole hard limit of open files
+    unsafe {
+        let mut rl = libc::rlimit { rlim_cur: 0, rlim_max: 0 };
+        if libc::getrlimit(libc::RLIMIT_NOFILE, &mut rl) == 0 && rl.rlim_cur < rl.rlim_max {
+            rl.rlim_cur = rl.rlim_max;
+            libc::setrlimit(libc::RLIMIT_NOFILE, &rl);
+        }
+    }
     match args[1].as_str() {
         "selftest" => {
             if let Err(e) = rtref::selftest() {
